@@ -8,7 +8,7 @@ GENERATED (used by QModel.C14, theorems are about them):
 SKELETON-MATCHED ONLY (any structural edit fails loudly = broken obligation): `generate_data_from_prob_dist`,
 `generate_dataset_from_prob_dists`, `calc_empi_dist_sequence`, `generate_empi_dist(s)_sequence_from_prob_dist(s)`,
 `Experiment.generate_data / generate_dataset / generate_empi_dist_sequence / generate_empi_dists_sequence /
-reset_seed_data / copy`, and the three data-generation entry points of the four tomography classes (one shared skeleton)."""
+reset_seed_data / copy`, `QTomography.reset_seed`, and the three data-generation entry points of the four tomography classes (one shared skeleton)."""
 import ast, os, re
 
 from common import LEAN
@@ -217,6 +217,13 @@ def generate_empi_dists_sequence(self, %(par)s, num_sums, seed_or_generator=None
     return empi_dists_sequence
 """,
 }
+T_RESET_SEED = """
+def reset_seed(self, seed=None):
+    if seed is not None:
+        self._experiment.reset_seed_data(seed)
+    else:
+        self._experiment.reset_seed_data(self._experiment.seed_data)
+"""
 T_EXEC_SAMPLING = """
 def execute_random_sampling(self, num, size, random_generator=None):
     stream = to_stream(random_generator)
@@ -282,6 +289,8 @@ def extract():
     md = _parse("quara/objects/multinomial_distribution.py")
     _match(_norm_src(_func(md, "MultinomialDistribution", "execute_random_sampling")), T_EXEC_SAMPLING,
            "MultinomialDistribution.execute_random_sampling")
+    qt = _parse("quara/protocol/qtomography/qtomography.py")
+    _match(_norm_src(_func(qt, "QTomography", "reset_seed")), T_RESET_SEED, "QTomography.reset_seed")
     ex = _parse(EXP)
     for name, tpl in T_EXP.items():
         _match(_norm_src(_func(ex, "Experiment", name)), tpl, f"Experiment.{name}")
